@@ -10,7 +10,10 @@
 (*        of the reply in arrival order, each [kind, result]:                   *)
 (*          kind    "genuine" (signed by the key holder, chained per RFC 8945   *)
 (*                  5.3.1) | "bitflip" (one MAC-covered bit altered) | "badmac" *)
-(*                  (garbage MAC) | "otherkey" (signed with another secret)     *)
+(*                  (garbage MAC) | "otherkey" (signed with another secret) |   *)
+(*                  "emptymac-.." (TSIG with an empty MAC and an error code) |  *)
+(*                  "truncmac" | "unsigned" | "replay" (reply to another        *)
+(*                  request): everything but "genuine" is forged                *)
 (*          result  what the request's receiver got for that message: "ok"      *)
 (*                  (handed over as a good response) | "err" | "none"           *)
 (* The monitor evaluates the requirement operators of TsigOps per event.       *)
@@ -35,7 +38,9 @@ ReqAllowed ==
 \*  - no message that was not made by the key holder is handed over as good;
 \*  - every genuine message up to the first such message is handed over (against vacuity:
 \*    what happens to genuine messages after a rejected one is left open).
-IsMux == e.ev = "muxreply"
+\* udpreply: the same through the real UdpClientStream built with a signer (drive_c16 udp-tsig);
+\* msgs = the datagrams that arrived from the queried address and port, in order
+IsMux == e.ev \in {"muxreply", "udpreply"}
 Forged(i) == e.msgs[i].kind # "genuine"
 C13_MuxNoForgedAccepted == \A i \in 1..Len(e.msgs) : Forged(i) => e.msgs[i].result # "ok"
 C13_MuxGenuineAccepted ==
